@@ -457,15 +457,31 @@ def int_alloc(chk, prog, files):
         for s in ast.walk(f.node):
             if isinstance(s, ast.Assign) and len(s.targets) == 1 and isinstance(s.targets[0], ast.Name) and isinstance(s.value, ast.Call):
                 cal = ast.unparse(s.value.func).split(".")[-1]
-                if cal in LIKE and s.value.args and isinstance(s.value.args[0], ast.Name) and s.value.args[0].id in params - floated \
-                        and not any(k.arg == "dtype" for k in s.value.keywords):
-                    bufs[s.targets[0].id] = (s, s.value.args[0].id)
+                if cal in LIKE and s.value.args and not any(k.arg == "dtype" for k in s.value.keywords):
+                    a0 = s.value.args[0]
+                    src = None
+                    if isinstance(a0, ast.Name) and a0.id in params - floated:
+                        src = a0.id
+                    elif isinstance(a0, (ast.List, ast.Tuple)) and a0.elts and all(isinstance(e, ast.Name) and e.id in params - floated for e in a0.elts):
+                        src = "[%s]" % ", ".join(e.id for e in a0.elts)          # np.zeros_like([x, y, z]): integer arguments give an integer buffer
+                    elif isinstance(a0, ast.Attribute) and isinstance(a0.value, ast.Name) and a0.value.id == "self" and f.cls is not None \
+                            and a0.attr in _raw_attrs(f.cls):
+                        src = "self." + a0.attr                                   # the caller's array as stored by the constructor (no float conversion anywhere)
+                    if src is not None:
+                        bufs[s.targets[0].id] = (s, src)
+            elif isinstance(s, ast.Assign) and len(s.targets) == 1 and isinstance(s.targets[0], ast.Attribute) and isinstance(s.value, ast.Call) \
+                    and isinstance(s.targets[0].value, ast.Name) and s.targets[0].value.id == "self" and f.cls is not None:
+                cal = ast.unparse(s.value.func).split(".")[-1]
+                if cal in LIKE and s.value.args and not any(k.arg == "dtype" for k in s.value.keywords):
+                    a0 = s.value.args[0]
+                    if isinstance(a0, ast.Attribute) and isinstance(a0.value, ast.Name) and a0.value.id == "self" and a0.attr in _raw_attrs(f.cls):
+                        bufs["self." + s.targets[0].attr] = (s, "self." + a0.attr)
         for name, (alloc, src) in bufs.items():
             n += 1
             for s in ast.walk(f.node):
                 if isinstance(s, ast.Assign):
                     for t in s.targets:
-                        if isinstance(t, ast.Subscript) and isinstance(t.value, ast.Name) and t.value.id == name and not _is_int_const(s.value):
+                        if isinstance(t, ast.Subscript) and ast.unparse(t.value) == name and not _is_int_const(s.value):
                             chk.finding("INT-ALLOC", f.module.rel, f.qname, "%s ; %s" % (stmt_text(alloc), stmt_text(s)[:60]),
                                         "`%s` takes its dtype from the caller's `%s`: with an integer-typed argument the computed values stored into it are truncated to integers" % (name, src),
                                         line=alloc.lineno)
@@ -475,6 +491,46 @@ def int_alloc(chk, prog, files):
                     break
     chk.counts["INT-ALLOC.buffers"] = chk.counts.get("INT-ALLOC.buffers", 0) + n
     return n
+
+
+_RAW_CACHE = {}
+
+
+def _raw_attrs(cls):
+    """attributes of a class that hold a caller's array exactly as given: every assignment `self.X = ...` in the class is a parameter of the assigning method,
+    or np.copy / np.array / np.asarray / np.atleast_2d (no dtype) of a parameter or of self.X itself"""
+    key = id(cls.node)
+    if key in _RAW_CACHE:
+        return _RAW_CACHE[key]
+    assigns = {}
+    for g in cls.methods.values():
+        ps = set(_params(g))
+        for s in ast.walk(g.node):
+            tgts = s.targets if isinstance(s, ast.Assign) else ([s.target] if isinstance(s, (ast.AnnAssign, ast.AugAssign)) else [])
+            for t in tgts:
+                if isinstance(t, ast.Attribute) and isinstance(t.value, ast.Name) and t.value.id == "self":
+                    assigns.setdefault(t.attr, []).append((getattr(s, "value", None), ps, isinstance(s, ast.AugAssign)))
+
+    def raw(v, ps, attr, depth=0):
+        if v is None or depth > 4:
+            return False
+        if isinstance(v, ast.Name):
+            return v.id in ps
+        if isinstance(v, ast.Attribute) and isinstance(v.value, ast.Name) and v.value.id == "self":
+            return v.attr == attr
+        if isinstance(v, ast.IfExp):
+            return raw(v.body, ps, attr, depth + 1) or raw(v.orelse, ps, attr, depth + 1)
+        if isinstance(v, ast.Call) and ast.unparse(v.func).split(".")[-1] in ("copy", "array", "asarray", "atleast_2d", "atleast_1d", "ascontiguousarray") and v.args \
+                and not any(k.arg == "dtype" for k in v.keywords) and len(v.args) == 1:
+            return raw(v.args[0], ps, attr, depth + 1)
+        return False
+    out = set()
+    for attr, lst in assigns.items():
+        vals = [(v, ps) for v, ps, aug in lst if not (isinstance(v, ast.Constant) and v.value is None)]
+        if vals and not any(aug for _, _, aug in lst) and all(raw(v, ps, attr) for v, ps in vals):
+            out.add(attr)
+    _RAW_CACHE[key] = out
+    return out
 
 
 def _float_coercion(v):
@@ -546,7 +602,7 @@ def domain_guard(chk, prog, refs=None):
     return n
 
 
-ALL = {"LATCH": lambda chk, prog, files: latch(chk, prog, files), "SIGNATURE": lambda chk, prog, files: signature(chk, prog, files), "SIGN-CANON": lambda chk, prog, files: sign_canon(chk, prog, files), "UNDEFINED-NAME": lambda chk, prog, files: possibly_undefined(chk, prog, files), "SELF-PURE": lambda chk, prog, files: self_pure(chk, prog, files), "STALE-DERIVED": lambda chk, prog, files: stale_derived(chk, prog, files), "CACHE-KEY": lambda chk, prog, files: cache_key(chk, prog, files), "NO-PARAM-WRITE": lambda chk, prog, files: no_param_write(chk, prog, files), "ZERO-AS-MISSING": lambda chk, prog, files: zero_as_missing(chk, prog, files), "POSE-DIV": lambda chk, prog, files: pose_div(chk, prog, files), "UNIT-GUARD": lambda chk, prog, files: unit_guard(chk, prog, files), "PARAM-DEAD": param_dead, "SWAPPED-ARGS": swapped_args, "METHOD-TRUTH": method_truth, "VIEW-SWAP": view_swap,
+ALL = {"SUBCLASS-ARITH": lambda chk, prog, files: subclass_arith(chk, prog, files), "NAN-LITERAL": lambda chk, prog, files: nan_literal(chk, prog, files), "LATCH": lambda chk, prog, files: latch(chk, prog, files), "SIGNATURE": lambda chk, prog, files: signature(chk, prog, files), "SIGN-CANON": lambda chk, prog, files: sign_canon(chk, prog, files), "UNDEFINED-NAME": lambda chk, prog, files: possibly_undefined(chk, prog, files), "SELF-PURE": lambda chk, prog, files: self_pure(chk, prog, files), "STALE-DERIVED": lambda chk, prog, files: stale_derived(chk, prog, files), "CACHE-KEY": lambda chk, prog, files: cache_key(chk, prog, files), "NO-PARAM-WRITE": lambda chk, prog, files: no_param_write(chk, prog, files), "ZERO-AS-MISSING": lambda chk, prog, files: zero_as_missing(chk, prog, files), "POSE-DIV": lambda chk, prog, files: pose_div(chk, prog, files), "UNIT-GUARD": lambda chk, prog, files: unit_guard(chk, prog, files), "PARAM-DEAD": param_dead, "SWAPPED-ARGS": swapped_args, "METHOD-TRUTH": method_truth, "VIEW-SWAP": view_swap,
        "MODULE-STATE": module_state, "SHADOW-REBIND": shadow_rebind, "CASE-MIXED": case_mixed, "INT-ALLOC": int_alloc}
 
 
@@ -621,10 +677,16 @@ def _lint_fixture_alloc(p):
     out = _np.zeros_like(p)
     out[0] = p[0]/3
     return out
+def _lint_fixture_subclass(q):
+    q = _np.asanyarray(q)
+    return q * _np.array([1, -1, -1, -1])
+def _lint_fixture_nan(x):
+    w = _np.full(3, _np.nan)
+    return w * 0.0 + x
 '''
 FIXTURE_HOST = "ahrs/common/frames.py"
 # rule -> properties that own it (None = every property, on its anchor files)
-OWNERS = {"LATCH": None, "SIGNATURE": None, "SIGN-CANON": None, "UNDEFINED-NAME": None, "SELF-PURE": {"C01", "C02", "C07", "C09", "C10", "C11", "C12", "C18", "C20"}, "STALE-DERIVED": None, "CACHE-KEY": None, "NO-PARAM-WRITE": {"C01", "C02", "C03", "C04", "C06", "C07", "C09", "C10", "C12", "C13", "C18", "C20"}, "ZERO-AS-MISSING": None, "POSE-DIV": {"C03", "C04", "C05", "C13", "C02", "C07"}, "UNIT-GUARD": None, "PARAM-DEAD": None, "SWAPPED-ARGS": None, "METHOD-TRUTH": None, "VIEW-SWAP": None, "INT-ALLOC": None, "CASE-MIXED": None,
+OWNERS = {"SUBCLASS-ARITH": None, "NAN-LITERAL": {"C02", "C03", "C04", "C05", "C07", "C12", "C13"}, "LATCH": None, "SIGNATURE": None, "SIGN-CANON": None, "UNDEFINED-NAME": None, "SELF-PURE": {"C01", "C02", "C07", "C09", "C10", "C11", "C12", "C18", "C20"}, "STALE-DERIVED": None, "CACHE-KEY": None, "NO-PARAM-WRITE": {"C01", "C02", "C03", "C04", "C06", "C07", "C09", "C10", "C12", "C13", "C18", "C20"}, "ZERO-AS-MISSING": None, "POSE-DIV": {"C03", "C04", "C05", "C13", "C02", "C07"}, "UNIT-GUARD": None, "PARAM-DEAD": None, "SWAPPED-ARGS": None, "METHOD-TRUTH": None, "VIEW-SWAP": None, "INT-ALLOC": None, "CASE-MIXED": None,
           "SHADOW-REBIND": None,
           # process-wide hidden state only contradicts properties that promise repeatability / isolation / history independence
           "MODULE-STATE": {"C06", "C15", "C19"}}
@@ -1351,6 +1413,115 @@ def sign_canon(chk, prog, files):
                                 "`%s` is multiplied by the sign of its own component `%s`: when that component is exactly 0 (a valid value: half-turns, axis-aligned poses) "
                                 "np.sign gives 0 and the whole vector is annihilated" % (other, ast.unparse(arg)), line=call.lineno)
     chk.counts["SIGN-CANON.products"] = chk.counts.get("SIGN-CANON.products", 0) + n
+    return n
+
+
+# ----------------------------------------------------------------------------------------------------------- SUBCLASS-ARITH
+_DUNDER_OPS = {"__mul__": ast.Mult, "__rmul__": ast.Mult, "__matmul__": ast.MatMult, "__add__": ast.Add, "__radd__": ast.Add, "__sub__": ast.Sub, "__rsub__": ast.Sub,
+               "__pow__": ast.Pow, "__truediv__": ast.Div}
+
+
+def subclass_arith(chk, prog, files):
+    """np.asanyarray(x) / np.array(x, subok=True) / np.copy(x, subok=True) keep the repository's ndarray subclasses (Quaternion, QuaternionArray, DCM) as they
+    are, and those classes overload arithmetic operators with non-element-wise meanings (Quaternion.__mul__ is the Hamilton product, __add__ renormalises).
+    A value converted that way and then used with one of the overloaded operators computes something else whenever the caller hands in such an object."""
+    ops = set()
+    for m in prog.modules.values():
+        for c in m.classes.values():
+            if _is_ndarray_subclass(c):
+                for name in c.methods:
+                    if name in _DUNDER_OPS:
+                        ops.add(_DUNDER_OPS[name])
+    n = 0
+
+    def keeps_subclass(v):
+        if not isinstance(v, ast.Call):
+            return False
+        cal = ast.unparse(v.func).split(".")[-1]
+        if cal == "asanyarray":
+            return True
+        return cal in ("array", "copy", "asarray") and any(k.arg == "subok" and isinstance(k.value, ast.Constant) and k.value.value is True for k in v.keywords)
+    for f in _funcs(prog, files):
+        kept = {}
+        for s in ast.walk(f.node):
+            if isinstance(s, ast.Assign) and len(s.targets) == 1 and isinstance(s.targets[0], ast.Name) and keeps_subclass(s.value):
+                kept[s.targets[0].id] = s
+        sites = [x for x in ast.walk(f.node) if keeps_subclass(x)]
+        n += len(sites)
+        if not sites or not ops:
+            continue
+        for b in ast.walk(f.node):
+            operands = []
+            if isinstance(b, ast.BinOp) and type(b.op) in ops:
+                operands = [b.left, b.right]
+            elif isinstance(b, ast.AugAssign) and type(b.op) in ops:
+                operands = [b.target, b.value]
+            for o in operands:
+                if keeps_subclass(o) or (isinstance(o, ast.Name) and o.id in kept):
+                    chk.finding("SUBCLASS-ARITH", f.module.rel, f.qname, "%s on a subclass-preserving conversion" % stmt_text(b)[:70],
+                                "`%s` is used with an operator the package's ndarray subclasses overload (Quaternion.__mul__ is the Hamilton product, __add__/__sub__ "
+                                "renormalise): after np.asanyarray / subok=True a Quaternion argument keeps its class and the arithmetic is no longer element-wise"
+                                % ast.unparse(o)[:40], line=b.lineno)
+                    break
+    chk.counts["SUBCLASS-ARITH.conversions"] = chk.counts.get("SUBCLASS-ARITH.conversions", 0) + n
+    return n
+
+
+# -------------------------------------------------------------------------------------------------------------- NAN-LITERAL
+def _is_nan_literal(e):
+    if isinstance(e, ast.Attribute) and e.attr in ("nan", "NaN", "NAN") and isinstance(e.value, ast.Name):
+        return True          # np.nan, numpy.nan, math.nan under whatever alias
+    return isinstance(e, ast.Call) and isinstance(e.func, ast.Name) and e.func.id == "float" and len(e.args) == 1 and isinstance(e.args[0], ast.Constant) \
+        and str(e.args[0].value).lower() in ("nan", "+nan", "-nan")
+
+
+def all_nan_array(v):
+    """np.array([np.nan]*4), np.array([np.nan, ...]), np.full(n, np.nan), np.full_like(x, np.nan), np.nan*np.ones(n), np.ones(n)*np.nan"""
+    if isinstance(v, ast.Call):
+        fn = ast.unparse(v.func).split(".")[-1]
+        if fn in ("full", "full_like") and len(v.args) >= 2 and _is_nan_literal(v.args[1]):
+            return True
+        if fn in ("array", "asarray") and v.args:
+            a = v.args[0]
+            if isinstance(a, ast.BinOp) and isinstance(a.op, ast.Mult) and isinstance(a.left, ast.List) and a.left.elts and all(_is_nan_literal(e) for e in a.left.elts):
+                return True
+            if isinstance(a, (ast.List, ast.Tuple)) and a.elts and all(_is_nan_literal(e) for e in a.elts):
+                return True
+    if isinstance(v, ast.BinOp) and isinstance(v.op, ast.Mult):
+        for x, y in ((v.left, v.right), (v.right, v.left)):
+            if _is_nan_literal(x) and isinstance(y, ast.Call) and ast.unparse(y.func).split(".")[-1] in ("ones", "ones_like"):
+                return True
+    return False
+
+
+def nan_echo(f, stmt):
+    """the return statement hands back an all-NaN array and sits directly under `if <... isnan(<a parameter>) ...>:` (NaN in, NaN out)"""
+    if not isinstance(stmt, ast.Return) or stmt.value is None or not all_nan_array(stmt.value):
+        return False
+    for n in ast.walk(f.node):
+        if isinstance(n, ast.If) and stmt in n.body:
+            return any(isinstance(c, ast.Call) and ast.unparse(c.func).split(".")[-1] == "isnan" and
+                       any(isinstance(a, ast.Name) and a.id in f.params for a in ast.walk(c)) for c in ast.walk(n.test))
+    return False
+
+
+def nan_literal(chk, prog, files):
+    """A NaN constant written into a computation (a fill value, a marker for "missing", a default): NaN is absorbing -- 0*NaN, NaN-NaN, a zero-weighted sum with it
+    are all NaN -- so a result that touches the marked entries is NaN, where the properties promise finite, valid outputs (or a refusal).  The one accepted use
+    is the echo `if isnan(<input>): return <all-NaN array>`."""
+    n = 0
+    for f in _funcs(prog, files):
+        echoes = {id(x) for s in ast.walk(f.node) if isinstance(s, ast.Return) and nan_echo(f, s) for x in ast.walk(s)}
+        for x in _own_nodes(f.node):
+            if isinstance(x, (ast.Attribute, ast.Call)) and _is_nan_literal(x):
+                n += 1
+                if id(x) in echoes:
+                    continue
+                # comparisons against the constant do not put it into the data
+                chk.finding("NAN-LITERAL", f.module.rel, f.qname, "NaN constant in %s" % f.qname,
+                            "`%s` is written into the computation: NaN is absorbing (0*NaN is NaN), so every result that touches the marked entries -- including a "
+                            "zero-weighted blend -- is NaN instead of a finite value or a refusal" % ast.unparse(x), line=x.lineno)
+    chk.counts["NAN-LITERAL.constants"] = chk.counts.get("NAN-LITERAL.constants", 0) + n
     return n
 
 
